@@ -185,6 +185,7 @@ type executor struct {
 	privateLocals []*ssa.Alloc
 	curLoop  *loopInfo
 	freeVars map[string]Value
+	aliases  map[string]string // old local name -> current name (pure rename since the baseline)
 	inSpec   bool // executing code on behalf of a specification (no obligations)
 	idxSeen  map[int]bool
 }
